@@ -767,6 +767,19 @@ impl Prop for C13 {
     }
 
     fn check(c: &Case, obs: &mut Obs) {
+        // history round (core::history_round): the same inputs with `graphemes` flipped in between
+        if history_round(
+            c,
+            obs,
+            |c| {
+                let mut v = c.clone();
+                v.graphemes = !v.graphemes;
+                v
+            },
+            Self::check,
+        ) {
+            return;
+        }
         let n = c.input.len();
         let gr = c.graphemes;
         let (beta, seq_avg) = (c.beta, c.seq_avg);
